@@ -49,6 +49,59 @@ def collect(ast):
     return hs, ts, fs
 
 
+def collect_emitted(doc):
+    """the same three id lists, read off the page AS EMITTED (Node.serialize()): everything a consumer of the page gets, the page-level
+    options (the on-page table of contents built by `contents`) included"""
+    hs, ts, fs = [], [], []
+
+    def go(x):
+        if isinstance(x, dict):
+            t = x.get("type")
+            if t == "heading":
+                hs.append(x.get("id"))
+            elif t == "directive" and x.get("name") == "collapsible":
+                hs.append((x.get("options") or {}).get("id", ""))
+            elif t in ("target", "inline_target") and x.get("html_id") is not None:
+                ts.append(x["html_id"])
+            elif t == "footnote_reference":
+                fs.append(x.get("id"))
+            for v in x.values():
+                go(v)
+        elif isinstance(x, list):
+            for v in x:
+                go(v)
+    go(doc)
+    return hs, ts, fs
+
+
+ID_BEARING = ["_`thing`", "[#]_", "_`gadget`", "[#]_", "plain", "*em*", ":ref:`lab`"]
+
+
+def rich_text(case):
+    """a page whose directive arguments / glossary terms / headings hold inline nodes that carry ids (inline targets, footnote
+    references): the parser and the postprocessor make COPIES of such titles (a step's heading, a term's target name, the on-page
+    table of contents), and a copy must not repeat an id"""
+    lines = ["Title", "=====", "", ".. _lab:", "", "Intro", "-----", "", "Text.", ""]
+    if case.get("contents"):
+        lines += [".. contents::", ""]
+    for i, sec in enumerate(case["secs"]):
+        title = f"Sec{i} " + " ".join(sec["title"])
+        lines += [title, "~" * (len(title) + 2), "", "Body.", ""]
+        if sec["kind"] == "steps":
+            lines += [".. procedure::", ""]
+            for j, st in enumerate(sec["items"]):
+                lines += [f"   .. step:: Step{i}{j} " + " ".join(st), "", "      Do it.", ""]
+        elif sec["kind"] == "glossary":
+            lines += [".. glossary::", ""]
+            for j, st in enumerate(sec["items"]):
+                lines += [f"   term{i}{j} " + " ".join(st), "     A thing.", ""]
+        elif sec["kind"] == "admonition":
+            for j, st in enumerate(sec["items"]):
+                lines += [f".. note:: Note{i}{j} " + " ".join(st), "", "   Content.", ""]
+    lines += [".. [#] a note", ""]
+    return "\n".join(lines) + "\n"
+
+
 class C09(core.PropertyCheck):
     id = "C09"
     quick_budget = 1500
@@ -127,6 +180,13 @@ class C09(core.PropertyCheck):
             colls = [rng.choice([None, None, "More", "More", "Sec0 Part0"]) for _ in range(rng.choice([0, 0, 1, 2, 3]))]
             yield {"kind": "titled", "secs": secs, "colls": colls, "refs": [rng.choice(labels) for _ in range(rng.randint(0, 2))] if labels else [],
                    "other_refs": [rng.choice(labels) for _ in range(rng.randint(0, 2))] if labels else [], "other_footrefs": rng.randint(0, 2)}
+        for _ in range(budget // 6):
+            secs = []
+            for k in range(rng.randint(1, 3)):
+                secs.append({"kind": rng.choice(["steps", "glossary", "admonition", "plain"]),
+                             "title": [rng.choice(ID_BEARING) for _ in range(rng.randint(0, 2))],
+                             "items": [[rng.choice(ID_BEARING) for _ in range(rng.randint(0, 2))] for _ in range(rng.randint(1, 2))]})
+            yield {"kind": "rich", "secs": secs, "contents": rng.random() < 0.5}
         for _ in range(budget // 5):
             tnames = [x for x in names if x.strip() and "\t" not in x and not x.startswith("-")]
             titles = [rng.choice(tnames) for _ in range(rng.randint(2, 6))]
@@ -137,6 +197,24 @@ class C09(core.PropertyCheck):
             for i in range(len(case["titles"])):
                 if len(case["titles"]) > 1:
                     yield {**case, "titles": case["titles"][:i] + case["titles"][i + 1:]}
+            return
+        if case["kind"] == "rich":
+            secs = case["secs"]
+            for i in range(len(secs)):
+                if len(secs) > 1:
+                    yield {**case, "secs": secs[:i] + secs[i + 1:]}
+            if case["contents"]:
+                yield {**case, "contents": False}
+            for i, sec in enumerate(secs):
+                if sec["title"]:
+                    yield {**case, "secs": secs[:i] + [{**sec, "title": sec["title"][1:]}] + secs[i + 1:]}
+                if sec["kind"] != "plain":
+                    yield {**case, "secs": secs[:i] + [{**sec, "kind": "plain"}] + secs[i + 1:]}
+                for j, it in enumerate(sec["items"]):
+                    if len(sec["items"]) > 1:
+                        yield {**case, "secs": secs[:i] + [{**sec, "items": sec["items"][:j] + sec["items"][j + 1:]}] + secs[i + 1:]}
+                    if it:
+                        yield {**case, "secs": secs[:i] + [{**sec, "items": sec["items"][:j] + [it[1:]] + sec["items"][j + 1:]}] + secs[i + 1:]}
             return
         if case["kind"] == "titled":
             for i in range(len(case["secs"])):
@@ -297,6 +375,15 @@ class C09(core.PropertyCheck):
     def run_impl(self, case):
         if case["kind"] == "giza":
             return self.run_giza(case)
+        if case["kind"] == "rich":
+            try:
+                page, _ = rst.parse(rich_text(case), "index.txt")
+                res = pp.run([page])
+                hs, ts, fs = collect_emitted(res.pages[n.FileId("index.txt")].ast.serialize())
+            except Exception as e:
+                return {"exc": type(e).__name__, "msg": str(e)[:200]}
+            return {"exc": None, "pages": [{"page": "index.txt", "headings": hs, "targets": ts, "footnotes": fs}],
+                    "bases": [{"headings": [], "targets": [], "footnotes": 0}]}
         pages, ids = self.build_pages(case)
         by = {str(p.fileid): p for p in pages}
         # base ids as the handlers will see them (after include expansion the order is document order)
@@ -337,7 +424,7 @@ class C09(core.PropertyCheck):
 
     # ---- model ----
     def model_request(self, case):
-        if case["kind"] in ("repl", "titled", "giza"):
+        if case["kind"] in ("repl", "titled", "giza", "rich"):
             return None
         b = self.bases(case)
         words = sorted({c for pg in b for s in pg["headings"] + pg["targets"] for c in s})
@@ -407,7 +494,7 @@ class C09(core.PropertyCheck):
     def nontrivial_key(self, case, impl):
         if impl.get("exc"):
             return None
-        if case["kind"] == "repl":
+        if case["kind"] in ("repl", "rich"):
             pg = impl["pages"][0]
             return core.json.dumps(case, sort_keys=True) if (len(pg["targets"]) >= 2 or len(pg["footnotes"]) >= 2) else None
         for b in impl["bases"]:
